@@ -314,7 +314,16 @@ def recording_model(Model, **kw):
             object.__delattr__(self, name)
     Shared.__name__ = Model.__name__
     Shared.__qualname__ = Model.__qualname__
-    return Shared(**kw)
+    obj = Shared(**kw)
+    # containers held by the instance itself (a per-model memo filled in place is invisible to __setattr__)
+    RDict, RList, RSet = _mk_containers()
+    for k, v in list(obj.__dict__.items()):
+        t = {dict: RDict, list: RList, set: RSet}.get(type(v))
+        if t is not None:
+            w = t(v)
+            w._n = f'model.{k}'
+            object.__setattr__(obj, k, w)
+    return obj
 
 
 # ---------------------------------------------------------------------------
